@@ -7,14 +7,20 @@ x payload classes (finite, all special bit patterns incl. signed zeros, +-inf, N
 denormals, max; Fortran-ordered and strided memory) x error layouts x card variants. Each is
 written into a real EKO, closed, re-read from the tar and compared with the reference (a dict
 keyed by (float(scale), int(nf)) holding the exact bytes) and with the cards / metadata that were
-put in.
+put in. Further dimensions of part A (on sub-lattices, see `run`): `extras` (the other four
+inventories of an EKO: recipes / matching recipes (header only) and parts / matching parts (header +
+operator), headers with Python and NumPy fields and both bool values), `via` (the way the archive is
+finished and re-read: close(), `with` on the EKO, `with` on the Builder, dump() on the default path,
+deepcopy() to a second archive, read(extract=False) of the unpacked tar) and non-square shapes
+(EKO.load documents that it refuses them: either the content comes back or exactly that refusal).
 
-Part B (kind="edit"): every history of length <= depth over the 12-operation edit alphabet
+Part B (kind="edit"): every history of length <= depth over the 14-operation edit alphabet
 {overwrite one (stored with / without error, by a value with / without error), add one (float
 key, NumPy key, key one ulp from an existing one), touch xgrid (same, new values, linear flag),
-load one, nothing}, applied to a closed 3-operator archive either in ONE edit session or one
-session per operation, then closed and re-read: everything not explicitly changed is bit-identical,
-everything explicitly changed has the new value.
+load one, nothing, add a recipe + part, change metadata.origin + update()}, applied to a closed
+3-operator archive (which also holds 2 recipes, 1 matching recipe, 1 part, 1 matching part) either in
+ONE edit session or one session per operation, then closed and re-read: everything not explicitly
+changed is bit-identical, everything explicitly changed has the new value.
 """
 
 import itertools
@@ -35,12 +41,13 @@ TECHNIQUE = (
 )
 LEVEL_TEXT = (
     "every point of the stated product and every edit history up to the depth bound is executed on the real "
-    "archive code (tar, lz4, npy/npz, YAML headers, metadata) and the re-read content is compared bit for bit "
-    "(arrays) and field by field (cards, metadata, NaN-aware) with what was written"
+    "archive code (tar, lz4, npy/npz, YAML headers, metadata) and the re-read content (operators, the four recipe / part "
+    "inventories, cards, metadata) is compared bit for bit (arrays) and field by field (headers with their types, cards, "
+    "metadata, NaN-aware) with what was written; archives are finished by close(), both context managers, dump() and deepcopy()"
 )
 LEVEL_NOTE = (
     "decides the property on the enumerated lattice only (float64 operators, square shapes up to 14x8x14x8, "
-    "<= 6 points, <= 3 edit operations); trusted: numpy tobytes, the 60-line canonicaliser vf/ref/c36_canon.py"
+    "<= 6 points, <= 8 recipes / 5 parts, <= 3 edit operations); trusted: numpy tobytes, the 60-line canonicaliser vf/ref/c36_canon.py"
 )
 FLOOR_NONTRIVIAL = 50
 
@@ -186,7 +193,126 @@ def _read(path, dest):
     return EKO.read(path, dest=dest)
 
 
-def _compare_content(res, e, model, th, op, sigroot, where, lin_expected=None):
+# ----------------------------------------------------------------------------- the other four inventories
+EXTRAS = ["none", "recipes+parts"]
+VIAS = ["close", "with-eko", "with-builder", "dump", "deepcopy", "noextract"]
+INVENTORIES = ["recipes", "recipes_matching", "parts", "parts_matching"]
+NONSQUARE = [[2, 3, 2, 2], [1, 2, 2, 2]]
+
+# header specs: [class, [field values as JSON], [indices of fields given as NumPy scalars]]
+X_RECIPES = [
+    ["Evolution", [4.0, 9.0, 4, False], []],
+    ["Evolution", [9.0, 25.0, 5, True], [1]],
+    ["Evolution", [25.0, 100.0, 5, False], [0, 2]],
+    ["Evolution", [25.0, 100.0, 6, False], []],  # same scales, other nf
+    ["Evolution", [9.0, 25.0, 5, False], []],  # differs from the 2nd one in `cliff` only
+    ["Matching", [9.0, 5, False], []],
+    ["Matching", [9.0, 5, True], [0, 1]],  # differs from the previous one in `inverse` only
+    ["Matching", [25.0, 6, False], [0]],
+]
+X_PARTS = [0, 1, 2, 5, 6]  # indices into X_RECIPES of the headers that also get an operator (even position: with error)
+
+
+def _header(spec):
+    from eko.io.items import Evolution, Matching
+
+    cls, vals, npidx = spec
+    out = []
+    for i, v in enumerate(vals):
+        if i in npidx:
+            v = np.float64(v) if isinstance(v, float) else np.int64(v)
+        out.append(v)
+    return (Evolution if cls == "Evolution" else Matching)(*out)
+
+
+def _hkey(spec):
+    """What a re-read header must be: class name + (field type, value) of plain Python numbers."""
+    cls, vals, _ = spec
+    return (cls,) + tuple((type(v).__name__, v) for v in vals)
+
+
+def _hkey_of(h):
+    import dataclasses
+
+    return (type(h).__name__,) + tuple((type(getattr(h, f.name)).__name__, getattr(h, f.name)) for f in dataclasses.fields(h))
+
+
+def _inv_of(spec, part):
+    if spec[0] == "Evolution":
+        return "parts" if part else "recipes"
+    return "parts_matching" if part else "recipes_matching"
+
+
+def _new_xmodel():
+    return {name: {} for name in INVENTORIES}
+
+
+def _write_extras(e, xmodel, shape, payload, specs=None, parts=None, salt0=300):
+    """Put recipes (in bulk, as the runner does) and parts into `e`; record them in `xmodel`."""
+    from eko.io.items import Operator
+
+    specs = X_RECIPES if specs is None else specs
+    parts = X_PARTS if parts is None else parts
+    e.load_recipes([_header(s) for s in specs])
+    for s in specs:
+        xmodel[_inv_of(s, False)][_hkey(s)] = None
+    for n, i in enumerate(parts):
+        s = specs[i]
+        a = cn.payload(shape, payload, salt=salt0 + n)
+        err = cn.payload(shape, payload, salt=salt0 + 50 + n) if n % 2 == 0 else None
+        inv = e.parts if s[0] == "Evolution" else e.parts_matching
+        inv[_header(s)] = Operator(a, err)
+        xmodel[_inv_of(s, True)][_hkey(s)] = (a, err, payload, s)
+
+
+def _compare_extras(res, e, xmodel, sigroot, where):
+    """Recipes / parts of a re-read EKO against what was written (nothing lost, nothing invented)."""
+    for name in INVENTORIES:
+        want = xmodel[name]
+        inv = getattr(e, name)
+        try:
+            inv.sync()
+            got = list(inv)
+        except Exception as exc:  # noqa
+            res.fail(f"{sigroot}/extras/sync-raises", f"{where}: {type(exc).__name__}: {str(exc)[:200]}")
+            continue
+        gk = [_hkey_of(h) for h in got]
+        if len(gk) != len(set(gk)) or set(gk) != set(want):
+            miss = sorted(map(str, set(want) - set(gk)))[:2]
+            more = sorted(map(str, set(gk) - set(want)))[:2]
+            res.fail(
+                f"{sigroot}/extras/headers",
+                f"{where}: {name} re-read {len(gk)} headers, written {len(want)}; missing {miss} unexpected {more} "
+                "(compared by class, field value and field type)",
+            )
+            continue
+        for h in got:
+            w = want[_hkey_of(h)]
+            try:
+                o = inv[h]
+            except Exception as exc:  # noqa
+                res.fail(f"{sigroot}/extras/get-raises", f"{where}: {name}[{h}] raised {type(exc).__name__}: {str(exc)[:200]}")
+                continue
+            if w is None:
+                if o is not None:
+                    res.fail(f"{sigroot}/extras/content", f"{where}: recipe {h} carries content {type(o).__name__}")
+                continue
+            a, err, klass, _ = w
+            if o is None:
+                res.fail(f"{sigroot}/extras/content", f"{where}: part {h} has no operator")
+                continue
+            d = cn.same_bits(o.operator, np.ascontiguousarray(a))
+            if d:
+                res.fail(f"{sigroot}/extras/operator-bits/{klass}", f"{where}: {name}[{h}]: {d}")
+            if (o.error is None) != (err is None):
+                res.fail(f"{sigroot}/extras/error-presence", f"{where}: {name}[{h}] error stored={err is not None} loaded={o.error is not None}")
+            elif err is not None:
+                d = cn.same_bits(o.error, np.ascontiguousarray(err))
+                if d:
+                    res.fail(f"{sigroot}/extras/error-bits/{klass}", f"{where}: {name}[{h}] error: {d}")
+
+
+def _compare_content(res, e, model, th, op, sigroot, where, lin_expected=None, xmodel=None, origin_expected=None):
     """Compare a re-read EKO `e` with the reference model (dict key -> (op_bytes_array, err))."""
     import eko.version as vmod
 
@@ -196,10 +322,36 @@ def _compare_content(res, e, model, th, op, sigroot, where, lin_expected=None):
     except Exception as exc:  # noqa
         res.fail(f"{sigroot}/keys-raises", f"{where}: iterating raised {type(exc).__name__}: {exc}")
         return
-    gk = [_mkey(*k) for k in got_keys]
+    try:
+        gk = [_mkey(*k) for k in got_keys]
+    except Exception as exc:  # noqa
+        res.fail(f"{sigroot}/key-types", f"{where}: re-read evolution points {got_keys!r} are not (number, number): {type(exc).__name__}")
+        return
     if len(gk) != len(set(gk)) or set(gk) != set(model):
         res.fail(f"{sigroot}/keys", f"{where}: evolution points {sorted(gk)} expected {sorted(model)}")
         return
+    # an evolution point read from an archive is (scale: plain float or int, nf: plain int): no string, bool, float nf
+    bad = [(s, n) for s, n in got_keys if type(n) is not int or type(s) not in (float, int)]
+    if bad or any(type(k) is not tuple or len(k) != 2 for k in got_keys):
+        res.fail(
+            f"{sigroot}/key-types",
+            f"{where}: re-read evolution points {bad or got_keys!r} have types "
+            f"{[(type(s).__name__, type(n).__name__) for s, n in (bad or got_keys)]}, expected (float|int, int)",
+        )
+    # ---- the other views of the key set
+    try:
+        if sorted(float(m) for m in e.mu2grid) != sorted(k[0] for k in gk):
+            res.fail(f"{sigroot}/mu2grid", f"{where}: mu2grid {e.mu2grid} vs evolution points {got_keys}")
+        if list(e.evolgrid) != got_keys:
+            res.fail(f"{sigroot}/evolgrid", f"{where}: evolgrid {e.evolgrid} vs iteration {got_keys}")
+        absent = [k for k in model if k not in e]
+        if absent:
+            res.fail(f"{sigroot}/contains", f"{where}: `in` is False for stored points {absent}")
+        phantom = [q for q in [(k[0] * 2, k[1]) for k in model] + [(k[0], k[1] + 1) for k in model] + [(7.0, 4)] if q not in model and q in e]
+        if phantom:
+            res.fail(f"{sigroot}/contains", f"{where}: `in` is True for points never stored {phantom}")
+    except Exception as exc:  # noqa
+        res.fail(f"{sigroot}/keys-raises", f"{where}: mu2grid / evolgrid / in raised {type(exc).__name__}: {str(exc)[:200]}")
     # ---- operators, by key lookup and by items()
     maxdev = 0
     for k, (a, err, klass) in model.items():
@@ -247,8 +399,15 @@ def _compare_content(res, e, model, th, op, sigroot, where, lin_expected=None):
     md = e.metadata
     want_log = op.xgrid.log if lin_expected is None else lin_expected[1]
     want_grid = np.asarray(op.xgrid.raw if lin_expected is None else lin_expected[0], dtype=float)
-    if tuple(md.origin) != (op.init[0] ** 2, op.init[1]) or len(md.origin) != 2:
-        res.fail(f"{sigroot}/metadata/origin", f"{where}: origin {md.origin} expected {(op.init[0] ** 2, op.init[1])}")
+    want_origin = (op.init[0] ** 2, op.init[1]) if origin_expected is None else tuple(origin_expected)
+    if tuple(md.origin) != want_origin or len(md.origin) != 2:
+        res.fail(f"{sigroot}/metadata/origin", f"{where}: origin {md.origin} expected {want_origin}")
+    elif not isinstance(md.origin, tuple) or type(md.origin[1]) is not int or type(md.origin[0]) not in (float, int):
+        res.fail(
+            f"{sigroot}/metadata/origin-types",
+            f"{where}: origin {md.origin!r} is {type(md.origin).__name__} of {[type(x).__name__ for x in md.origin]}, "
+            "written as a tuple (float, int)",
+        )
     if np.asarray(md.xgrid.raw, dtype=float).tobytes() != want_grid.tobytes():
         res.fail(f"{sigroot}/metadata/xgrid", f"{where}: xgrid {md.xgrid.raw.tolist()} expected {want_grid.tolist()}")
     if bool(md.xgrid.log) != bool(want_log):
@@ -258,6 +417,8 @@ def _compare_content(res, e, model, th, op, sigroot, where, lin_expected=None):
             f"{sigroot}/metadata/version",
             f"{where}: version {md.version}/{md.data_version} expected {vmod.__version__}/{vmod.__data_version__}",
         )
+    # ---- recipes, parts (written or not: nothing lost, nothing invented)
+    _compare_extras(res, e, _new_xmodel() if xmodel is None else xmodel, sigroot, where)
     if flagged:
         res.fail(
             "EKO/xgrid-log-flag-lost",
@@ -267,50 +428,131 @@ def _compare_content(res, e, model, th, op, sigroot, where, lin_expected=None):
 
 
 # ----------------------------------------------------------------------------- part A
+def _path2(path):
+    return path.with_name(f"y-{path.stem}.tar")
+
+
 def eval_roundtrip(case):
+    import tarfile
+
     from eko.io.items import Operator
     from eko.io.struct import EKO
 
     keyspecs = KEYSETS[case["keys"]]
     shape = tuple(case["shape"])
+    extras = case.get("extras", "none")
+    via = case.get("via", "close")
+    square = shape[0] == shape[2] and shape[1] == shape[3]
     th, op = _cards(case["card"], shape[1])
     path = cards.scratch_path("c36")
+    path2 = _path2(path)
     res = Result()
     where = f"keys={case['keys']} shape={list(shape)} payload={case['payload']} err={case['err']} card={case['card']}"
+    if "extras" in case or "via" in case:
+        where += f" extras={extras} via={via}"
     model = {}
-    e = e2 = None
+    xmodel = _new_xmodel()
+    e = e2 = e3 = None
+
+    def fill(e):
+        for i, (sspec, nfk, nf) in enumerate(keyspecs):
+            a = cn.payload(shape, case["payload"], salt=i)
+            with_err = case["err"] == "all" or (case["err"] == "alternating" and i % 2 == 0)
+            err = cn.payload(shape, case["payload"], salt=50 + i) if with_err else None
+            key = (_scale(sspec), _nf(nfk, nf))
+            e[key] = Operator(a, err)
+            model[_mkey(*key)] = (a, err, case["payload"])
+        if extras == "recipes+parts":
+            _write_extras(e, xmodel, shape, case["payload"])
+
     try:
         try:
-            e = EKO.create(path).load_cards(th, op).build()
-            for i, (sspec, nfk, nf) in enumerate(keyspecs):
-                a = cn.payload(shape, case["payload"], salt=i)
-                with_err = case["err"] == "all" or (case["err"] == "alternating" and i % 2 == 0)
-                err = cn.payload(shape, case["payload"], salt=50 + i) if with_err else None
-                key = (_scale(sspec), _nf(nfk, nf))
-                e[key] = Operator(a, err)
-                model[_mkey(*key)] = (a, err, case["payload"])
-            e.close()
+            if via == "with-eko":
+                with EKO.create(path).load_cards(th, op).build() as e:
+                    fill(e)
+            elif via == "with-builder":
+                with EKO.create(path) as builder:
+                    e = builder.load_cards(th, op).build()
+                    fill(e)
+            elif via == "dump":
+                e = EKO.create(path).load_cards(th, op).build()
+                fill(e)
+                e.dump()  # on the registered path; the object stays open (removed in _cleanup)
+            else:
+                e = EKO.create(path).load_cards(th, op).build()
+                fill(e)
+                e.close()
         except Exception as exc:  # noqa
-            res.fail("EKO-roundtrip/write-raises", f"{where}: {type(exc).__name__}: {str(exc)[:300]}")
+            res.fail("EKO-roundtrip/write-raises" + ("" if via == "close" else f"/via={via}"), f"{where}: {type(exc).__name__}: {str(exc)[:300]}")
             res.outcome = "write-raises"
             return res
         dest = _dest(path)
+        sigroot = "EKO-roundtrip"  # content differences: one signature whatever the way of finishing (it is in the message)
         try:
-            e2 = _read(path, dest)
+            if via == "noextract":
+                with tarfile.open(path) as tar:
+                    tar.extractall(dest)
+                e2 = EKO.read(dest, extract=False)
+            else:
+                e2 = _read(path, dest)
         except Exception as exc:  # noqa
+            shutil.rmtree(dest, ignore_errors=True)
+            if not square:
+                # EKO.load: "Loading not squared EKOs is no longer possible." (ValueError) is the documented answer
+                if type(exc) is ValueError and "not squared" in str(exc):
+                    res.outcome = "nonsquare:refused"
+                    res.nontrivial = False
+                    return res
+                res.fail("EKO-roundtrip/nonsquare/reread-raises", f"{where}: EKO.read raised {type(exc).__name__}: {str(exc)[:200]}")
+                res.outcome = "reread-raises"
+                return res
             sig = _np_sig(keyspecs) or "EKO-roundtrip/reread-raises"
+            if via != "close":
+                sig = f"EKO-roundtrip/via={via}/reread-raises"
             res.fail(sig, f"{where}: EKO.read raised {type(exc).__name__}: {str(exc)[:200]}")
             res.outcome = "reread-raises"
-            shutil.rmtree(dest, ignore_errors=True)
             return res
-        _compare_content(res, e2, model, th, op, "EKO-roundtrip", where)
-        e2.close()
-        res.outcome = f"n={len(model)}:" + ("ok" if not res.fails else "differs")
-        res.nontrivial = len(model) > 0
-        res.info = {"max_points": len(model), "max_bytes_compared": sum(a.nbytes * (2 if er is not None else 1) for a, er, _ in model.values())}
+        if not square:
+            sigroot = "EKO-roundtrip/nonsquare"
+        if via == "deepcopy":
+            # a second writer of archives: copy the re-read object to another archive; both must hold the model
+            try:
+                with e2 as r:
+                    r.deepcopy(path2)
+                e2 = _read(path, dest)
+            except Exception as exc:  # noqa
+                res.fail("EKO-roundtrip/via=deepcopy/deepcopy-raises", f"{where}: {type(exc).__name__}: {str(exc)[:200]}")
+                res.outcome = "deepcopy-raises"
+                return res
+            _compare_content(res, e2, model, th, op, sigroot + "/source", where + " [source archive after deepcopy]", xmodel=xmodel)
+            e2.close()
+            try:
+                e3 = _read(path2, dest)
+            except Exception as exc:  # noqa
+                res.fail("EKO-roundtrip/via=deepcopy/reread-raises", f"{where}: EKO.read of the copy raised {type(exc).__name__}: {str(exc)[:200]}")
+                res.outcome = "reread-raises"
+                return res
+            _compare_content(res, e3, model, th, op, sigroot, where + " [copy]", xmodel=xmodel)
+            e3.close()
+        else:
+            _compare_content(res, e2, model, th, op, sigroot, where, xmodel=xmodel)
+            e2.close()
+        res.outcome = ("" if via == "close" else via + ":") + ("" if extras == "none" else "x:") + f"n={len(model)}:" + ("ok" if not res.fails else "differs")
+        if not square:
+            res.outcome = "nonsquare:" + res.outcome
+        res.nontrivial = len(model) > 0 or extras != "none"
+        res.info = {
+            "max_points": len(model),
+            "max_bytes_compared": sum(a.nbytes * (2 if er is not None else 1) for a, er, _ in model.values()),
+            "max_extra_headers": sum(len(v) for v in xmodel.values()),
+        }
         return res
     finally:
-        _cleanup(path, e, e2)
+        _cleanup(path, e, e2, e3)
+        try:
+            os.unlink(path2)
+        except OSError:
+            pass
 
 
 # ----------------------------------------------------------------------------- part B
@@ -325,7 +567,14 @@ def edit_alphabet():
     ops += [["add", "float"], ["add", "np"], ["add", "ulp"]]
     ops += [["xgrid", "same"], ["xgrid", "new"], ["xgrid", "lin"]]
     ops += [["get", 0], ["nop"]]
+    ops += [["add_part"], ["origin"]]
     return ops
+
+
+# what the archive under edit holds besides its 3 operators (indices into X_RECIPES) and what `add_part` adds
+EDIT_BASE_RECIPES = [X_RECIPES[0], X_RECIPES[1], X_RECIPES[6]]
+EDIT_BASE_PARTS = [0, 2]  # Evolution part with error, Matching part without
+EDIT_NEW_RECIPES = [["Evolution", [100.0, 400.0, 5, True], [1]], ["Matching", [400.0, 6, False], []]]
 
 
 def _edit_key(kind):
@@ -350,16 +599,19 @@ def eval_edit(case):
     res = Result()
     where = f"mode={mode} history={hist}"
     model = {}
+    xmodel = _new_xmodel()
+    origin = (op.init[0] ** 2, op.init[1])
     xg = (list(op.xgrid.raw), True)
     e = e2 = None
     try:
-        # ---- the archive under edit (3 operators; written, closed)
+        # ---- the archive under edit (3 operators, 3 recipes, 2 parts; written, closed)
         e = EKO.create(path).load_cards(th, op).build()
         for i, k in enumerate(EDIT_K):
             a = cn.payload(EDIT_SHAPE, "special", salt=i)
             err = cn.payload(EDIT_SHAPE, "special", salt=50 + i) if i == 1 else None
             e[k] = Operator(a, err)
             model[_mkey(*k)] = (a, err, "special")
+        _write_extras(e, xmodel, EDIT_SHAPE, "special", specs=EDIT_BASE_RECIPES, parts=EDIT_BASE_PARTS)
         e.close()
         e = None
         # ---- edit session(s)
@@ -393,6 +645,14 @@ def eval_edit(case):
                     _ = e[EDIT_K[o[1]]]
                 elif o[0] == "nop":
                     pass
+                elif o[0] == "add_part":
+                    # a new recipe + matching recipe, a part for the first one (overwritten by a later add_part)
+                    _write_extras(e, xmodel, EDIT_SHAPE, "finite", specs=EDIT_NEW_RECIPES, parts=[0] if j % 2 == 0 else [1, 0], salt0=400 + 10 * j)
+                elif o[0] == "origin":
+                    # the documented manual path: change a metadata attribute, then update()
+                    origin = (6.25 + j, 3)
+                    e.metadata.origin = origin
+                    e.update()
                 else:
                     raise ValueError(o)
                 if mode == "each":
@@ -423,11 +683,11 @@ def eval_edit(case):
             res.outcome = "reread-raises"
             shutil.rmtree(dest, ignore_errors=True)
             return res
-        _compare_content(res, e2, model, th, op, "EKO-edit", where, lin_expected=xg)
+        _compare_content(res, e2, model, th, op, "EKO-edit", where, lin_expected=xg, xmodel=xmodel, origin_expected=origin)
         e2.close()
         res.outcome = f"{mode}:{'+'.join(sorted({o[0] for o in hist})) or 'empty'}:" + ("ok" if not res.fails else "differs")
         res.nontrivial = any(o[0] != "nop" for o in hist)
-        res.info = {"max_points": len(model), "max_history": len(hist)}
+        res.info = {"max_points": len(model), "max_history": len(hist), "max_extra_headers": sum(len(v) for v in xmodel.values())}
         return res
     finally:
         _cleanup(path, e, e2)
@@ -461,6 +721,25 @@ def run(ctx):
             add(keys, shape, payload, err, 0)
         for keys, card in itertools.product(KEYSETS, range(1, len(CARDS))):
             add(keys, SHAPES[1], "special", "alternating", card)
+    n_base = len(cases)
+    # ---- sub-lattices: the other inventories, the ways of finishing / re-reading, the refused shapes
+    xseen = set()
+
+    def addx(keys, shape, payload, err, extras, via):
+        k = (keys, tuple(shape), payload, err, extras, via)
+        if k not in xseen and not (extras == "none" and via == "close" and (keys, tuple(shape), payload, err, 0) in seen):
+            xseen.add(k)
+            cases.append(dict(kind="roundtrip", keys=keys, shape=list(shape), payload=payload, err=err, card=0, extras=extras, via=via))
+
+    xkeys = list(KEYSETS) if thorough else ["six-mixed", "empty", "np-both"]
+    vkeys = list(KEYSETS) if thorough else ["six-mixed", "empty", "ulp-pair-np"]
+    for keys, payload, err in itertools.product(xkeys, payloads, ERRS if thorough else ["alternating"]):
+        addx(keys, SHAPES[1], payload, err, "recipes+parts", "close")
+    for keys, via, extras in itertools.product(vkeys, VIAS[1:], EXTRAS):
+        if thorough or extras == "recipes+parts":
+            addx(keys, SHAPES[1], "special", "alternating", extras, via)
+    for shape, keys in itertools.product(NONSQUARE, ["one-float", "six-mixed"]):
+        addx(keys, shape, "finite", "alternating", "none", "close")
     n_rt = len(cases)
     depth = 3 if thorough else 2
     ops = edit_alphabet()
@@ -478,12 +757,25 @@ def run(ctx):
         f"of {len(KEYSETS)} key sets (0-6 points; float / np.float64 / int scales, int / np.int64 nf, scales 1 ulp apart, "
         f"same scale with two nf, int+float spelling of one point, repr edge values) x {len(SHAPES)} shapes up to 14x8x14x8 x "
         f"{len(payloads)} payload classes (14 special bit patterns) x {len(ERRS)} error layouts x {len(CARDS)} card variants "
-        f"= {n_rt} archives; part B: all {n_hist} histories of length <= {depth} over {len(ops)} edit operations, in one "
-        "session and in one session per operation; non-trivial = at least one operator stored / one non-empty operation"
+        f"= {n_base} archives; + {n_rt - n_base} archives on sub-lattices (card 0, shape {SHAPES[1]}): {len(xkeys)} key sets x "
+        f"{len(payloads)} payloads x {3 if thorough else 1} error layouts with recipes + matching recipes + parts + matching parts "
+        f"({len(X_RECIPES)} headers with Python / NumPy fields, both bool values; {len(X_PARTS)} of them with operators), "
+        f"{len(vkeys)} key sets x {len(VIAS) - 1} other ways of finishing / re-reading ({', '.join(VIAS[1:])}) "
+        f"{'x with / without extras' if thorough else 'with extras'}, {len(NONSQUARE)} non-square shapes x 2 key sets "
+        "(refusal by EKO.load's documented ValueError or faithful content); every re-read archive is also asked for "
+        "mu2grid / evolgrid / `in` (stored and never-stored points), the plain types of its evolution points and origin, "
+        "and for its four other inventories (empty when nothing was put there); "
+        f"part B: all {n_hist} histories of length <= {depth} over {len(ops)} edit operations, in one "
+        "session and in one session per operation, on an archive that also holds 3 recipes and 2 parts; "
+        "non-trivial = at least one operator or part stored / one non-empty operation"
     )
     ctx.extra.update(states=n_hist, transitions=len(cases) - n_rt, max_depth_completed=depth)
     ctx.assumptions += [
-        "operators are float64 and square in (pid, x) as EKO.load requires; other dtypes / shapes not explored",
+        "operators are float64 and square in (pid, x) as EKO.load requires; other dtypes not explored; for the two "
+        "non-square shapes the documented refusal of EKO.load (ValueError 'not squared') counts as held, silent change does not",
+        "a re-read evolution point / origin must consist of plain Python numbers with an int flavour number (eko.io.types: "
+        "EvolutionPoint = (float, int)); int vs float of an equal scale is not distinguished",
+        "recipes / parts headers are compared by class, field value and field type (bool stays bool, NumPy scalars come back plain)",
         "card values are Python numbers here (NumPy numbers inside cards are C40's subject); evolution points carry the NumPy types",
         "an evolution point is identified by (float(scale), int(nf)); int 10 and float 10.0 are the same point",
         "between lattice points nothing is claimed",
